@@ -48,7 +48,7 @@ type atomicCase struct {
 
 func genAtomic(r *core.Rand, tier string) *atomicCase {
 	c := &atomicCase{HasV: r.Chance(0.8), HasT: r.Chance(0.8), HasM: r.Chance(0.8)}
-	c.VKind = []string{"flat", "flat", "ivf", "pq", "ivfpq"}[r.Intn(5)]
+	c.VKind = []string{"flat", "flat", "ivf", "pq", "ivfpq", "hnsw"}[r.Intn(6)] // hnsw: at most 9 resident vertices with M=8, the exact regime of C12
 	c.Metric = metrics[r.Intn(3)]
 	c.Dim = 2 * r.Range(1, 4)
 	c.NList = r.Range(1, 3)
@@ -480,7 +480,7 @@ func nonTrivialAtomic(lines, replies []string) bool {
 func init() {
 	register(&core.Typed[atomicCase]{
 		StreamName: "atomic", Prop: "C06",
-		RuleText: "hybrid index over every combination of configured sub-indexes (vector kinds flat/ivf/pq/ivfpq at full probe, 3 metrics); histories of Add/AddWithID/Remove/Flush with adds failing in the 1st (wrong dimension, zero vector under cosine) or 3rd (unsupported metadata type) sub-index, removal of unknown ids, id reuse after removal with flushes anywhere; after every op vector/text/metadata probes through the hybrid search and each sub-index directly; non-trivial = some probe found a document AND (an add was rejected OR a removal succeeded OR a removed id was re-added); distinct = distinct request streams",
+		RuleText: "hybrid index over every combination of configured sub-indexes (vector kinds flat/ivf/pq/ivfpq at full probe and hnsw in its exact small regime, 3 metrics); histories of Add/AddWithID/Remove/Flush with adds failing in the 1st (wrong dimension, zero vector under cosine) or 3rd (unsupported metadata type) sub-index, removal of unknown ids, id reuse after removal with flushes anywhere; after every op vector/text/metadata probes through the hybrid search and each sub-index directly; non-trivial = some probe found a document AND (an add was rejected OR a removal succeeded OR a removed id was re-added); distinct = distinct request streams",
 		NCases: func(tier string) int {
 			if tier == "thorough" {
 				return 30000
